@@ -66,6 +66,10 @@ macro "step_cases" h:ident : tactic =>
 @[simp] theorem resolve_stopConsumed (s : St) (it : Item) (r : Res) : (s.resolve it r).stopConsumed = s.stopConsumed := by
   unfold St.resolve; split <;> rfl
 
+@[simp] theorem resolve_notified (s : St) (it : Item) (r : Res) :
+    (s.resolve it r).notified = s.notified := by
+  unfold St.resolve; split <;> rfl
+
 @[simp] theorem resolve_startReported (s : St) (it : Item) (r : Res) :
     (s.resolve it r).startReported = s.startReported := by
   unfold St.resolve; split <;> rfl
@@ -146,11 +150,11 @@ theorem invH_step (s : St) (e : Ev) (s' : St) (hi : InvH s) (h : step s e = some
 `begin_stop` on; the channel outlives the task -/
 
 def Pc.rxDropped : Pc → Bool
-  | .startFailed | .finPostStop _ | .finRelease _ | .exited _ => true
+  | .startFailed | .finPostStop _ | .finRelease _ | .finNotify _ | .exited _ => true
   | _ => false
 
 def Pc.afterBeginStop : Pc → Bool
-  | .finPreStop _ | .finDropRx _ | .finPostStop _ | .finRelease _ | .exited _ => true
+  | .finPreStop _ | .finDropRx _ | .finPostStop _ | .finRelease _ | .finNotify _ | .exited _ => true
   | _ => false
 
 def Pc.terminal : Pc → Bool
@@ -183,6 +187,8 @@ def tokOk : Pc → Tok → Bool
   | .failReturn, _ => false
   | .startFailed, .dropped => true
   | .exited _, .dropped => true
+  | .finNotify _, .dropped => true
+  | .finNotify _, _ => false
   | .init, _ => false
   | .startFailed, _ => false
   | .exited _, _ => false
@@ -221,6 +227,7 @@ def agree : Life → Pc → Bool
   | .stopped1, .finDropRx _ => true
   | .stopped1, .finPostStop _ => true
   | .done, .finRelease _ => true
+  | .done, .finNotify _ => true
   | .done, .exited _ => true
   | _, _ => false
 
